@@ -119,6 +119,14 @@ def estimateSpeedT (g : GOps V) : M σ (List V) := do
   let b ← has "speed"
   if b then get g.toOps "speed" else addAFfn g.toOps (speedAlgT g) "speed"
 
+/-- `track.operate("abs_curv=I{ds}")` — the expression front end on the integrator: `I{ds}` becomes `I @ ds`, evaluated
+as `operate(Operator.INTEGRATOR, "ds", "#0")`; the assignment copies `#0` into `abs_curv` (an existing `abs_curv` is
+removed and created again, so it moves to the last index); the `finally` block of `operate(str)` purges `#0` -/
+def integExprT (g : GOps V) : M σ Unit :=
+  M.tryFinally
+    (unaryVoid g.toOps .integrator "ds" "#0" >>= fun _ => assignOp g.toOps (.tok "abs_curv") (.tok "#0"))
+    purge
+
 /-- `Track.length()`: `s = 0; for i in 1..n-1: s += getObs(i-1).distanceTo(getObs(i))` -/
 def lengthT (g : GOps V) : M σ V := do
   let n ← size
@@ -383,6 +391,7 @@ inductive WOp (V : Type)
   | speedAF (k : Nat)                         -- track.addAnalyticalFeature(speed)
   | dsAF (k : Nat)                            -- track.addAnalyticalFeature(ds, "ds")
   | integ (k : Nat)                           -- track.operate(Operator.INTEGRATOR, "ds", "abs_curv")
+  | integExpr (k : Nat)                       -- track.operate("abs_curv=I{ds}")
   | diff (k : Nat)                            -- track.operate(Operator.DIFFERENTIATOR, "abs_curv", "dd")
   | length (k : Nat)                          -- track.length()
   | curvAbs (k : Nat)                         -- computeCurvAbsBetweenTwoPoints(track)
@@ -407,7 +416,7 @@ inductive WRet (V : Type)
   | ids (l : List Nat)
 
 def WOp.track : WOp V → Nat
-  | .absCurv k | .speed k | .speedAF k | .dsAF k | .integ k | .diff k | .length k | .curvAbs k | .read k _
+  | .absCurv k | .speed k | .speedAF k | .dsAF k | .integ k | .integExpr k | .diff k | .length k | .curvAbs k | .read k _
   | .remove k _ | .write k _ _ | .sorted k | .duration k | .times k | .add k _ | .extract k _ _ | .slice k _ _
   | .copy k | .setPos k _ _ _ | .setTime k _ _ _ => k
 
@@ -450,6 +459,7 @@ def stepW [AbsTime V] (g : GOps V) (op : WOp V) : M (World V) (WRet V) := fun w0
     | .speedAF _ => col (addAFfn g.toOps (speedAlgT g) "speed")
     | .dsAF _ => col (addAFfn g.toOps (dsAlgT g) "ds")
     | .integ _ => col (unaryVoid g.toOps .integrator "ds" "abs_curv")
+    | .integExpr _ => unit (integExprT g)
     | .diff _ => col (unaryVoid g.toOps .differentiator "abs_curv" "dd")
     | .length _ => num (lengthT g)
     | .curvAbs _ => num (curvAbsT g)
